@@ -134,7 +134,7 @@ def families(thorough):
             dict(name="pair-small", mode="pair", segs2=3, segs4=2, lens2=[1, 2], lens4=[1, 2],
                  pats2=["last"], pats4=["all"], mod=6),
             dict(name="pair-long", mode="pair", segs2=2, segs4=2, lens2=[1, 2, 254, 255],
-                 lens4=[1, 2, 254, 255], pats2=["last"], pats4=["all"], long=True, mod=24),
+                 lens4=[1, 2, 254, 255], pats2=["last"], pats4=["all"], long=True, mod=32),
             MERGE,
         ]
     return [
@@ -172,7 +172,7 @@ def main(run: Run):
         # 4. validate everything against the effective cfg: any failure is a violation
         t1 = time.time()
         run.validate("As4Trace", eff, traces, behs, group=g, conf_cfg="As4Conf.cfg",
-                     batch=400 if (fam.get("long") or g == "pair-merge") else 4000)
+                     batch=800 if (fam.get("long") or g == "pair-merge") else 4000)
         v.log("family %s: %d schedules; generate+execute %.1fs, validate %.1fs"
               % (g, len(behs), t1 - t0, time.time() - t1))
         # known findings: show, on a few schedules of each class, that the STRICT invariant fails
